@@ -156,7 +156,7 @@ parser! {
     }
 
     /// Helper rule to match an Identifier with the specified text
-    rule id_eq(val: &str) -> &'input Token = [t if t.token_type == TokenType::Identifier && t.text.as_str() == val]
+    rule id_eq(val: &str) -> &'input Token = [t if t.token_type == TokenType::Identifier && t.text.eq_ignore_ascii_case(val)]
 
     // peg rules for making the grammar easier to work with. These produce
     // output on matching with the name of the item
